@@ -125,6 +125,39 @@ def h24map(ctx, entries=1, anyframe=False):
     return _check_decode(ctx, F.ForwardFrame(24, x), x, 24, 0, m, "h24map")
 
 
+def h24map_real(ctx):
+    """The library's own DeviceInstanceTypeMapper, untouched (nothing of it replaced), filled through add_type
+    with keys from a small concrete set; the frame is symbolic but its device/instance fields are limited to
+    that set plus values the map does not know: a device the map knows with an instance it does not, an
+    unknown device, a known pair - decoding never fails whatever the map contains."""
+    x = ctx.fresh("x", 0, 0xFFFFFF)
+    ctx.assume(E.eq(x & 0x818000, 0x008000))
+    sa, inst = (x >> 17) & 0x3F, (x >> 10) & 0x1F
+    ctx.assume(E.or_(E.eq(sa, 5), E.eq(sa, 37), E.eq(sa, 63)))
+    ctx.assume(E.or_(E.eq(inst, 0), E.eq(inst, 2), E.eq(inst, 31)))
+    m = helpers.DeviceInstanceTypeMapper()
+    filled = ctx.fresh_choice("filled", 4)
+    t = ctx.fresh("t", 0, 255)
+    if filled >= 1:
+        m.add_type(short_address=5, instance_number=0, instance_type=t)
+    if filled >= 2:
+        m.add_type(short_address=A.DeviceShort(5), instance_number=A.InstanceNumber(31), instance_type=3)
+    if filled >= 3:
+        m.add_type(short_address=63, instance_number=2, instance_type=1)
+    return _check_decode(ctx, F.ForwardFrame(24, x), x, 24, 0, m, "h24map-real")
+
+
+def h24_after_16(ctx):
+    """A 16-bit frame is decoded first, then the 24-bit frame whose top byte is zero and whose lower two bytes
+    are the same bits (an event from the control device at short address 0): frames of different widths that
+    agree as numbers are different frames."""
+    y = ctx.fresh("y", 0, 0xFFFF)
+    dt = ctx.fresh("dt0", 0, 8)
+    call(C.from_frame, F.ForwardFrame(16, y), devicetype=dt)
+    x = y                                   # 24 bits: 00 : y
+    return _check_decode(ctx, F.ForwardFrame(24, x), x, 24, dt, None, "h24-after-16")
+
+
 def hlen(ctx, B):
     w = ctx.fresh("w", 1, B)
     ctx.assume(E.and_(E.ne(w, 16), E.ne(w, 24)))
@@ -140,6 +173,8 @@ def cases(tier):
         Case("h16", h16, {}),
         Case("h24", h24, {}),
         Case("h24map", h24map, {}),
+        Case("h24map-real", h24map_real, {}),
+        Case("h24-after-16", h24_after_16, {}),
         Case("hlen", hlen, {"B": 64}, width=128),
     ]
     if tier == "thorough":
